@@ -241,6 +241,7 @@ func runC13(r *simrt.Run) {
 	w := nomsim.NewWorld(r, nomsim.MockGenesis(mode))
 	w.EnforceReceiverRule(0)
 	w.Net.Gossip = false
+	w.NonceNoise = true
 	a := w.AddNode("A", nomsim.MockPillars(), false)
 	b := w.AddNode("B", nil, false)
 	wl := nomsim.NewWorkload(w, mode)
